@@ -48,6 +48,24 @@ impl<'de> Deserialize<'de> for ByteBuf {
     }
 }
 
+/// f32 / f64 compared by bit pattern (NaN payloads and the sign of zero are part of the value)
+#[derive(Debug, Clone, Copy, Serialize, Deserialize)]
+#[serde(transparent)]
+pub struct F32Bits(pub f32);
+impl PartialEq for F32Bits {
+    fn eq(&self, o: &Self) -> bool {
+        self.0.to_bits() == o.0.to_bits()
+    }
+}
+#[derive(Debug, Clone, Copy, Serialize, Deserialize)]
+#[serde(transparent)]
+pub struct F64Bits(pub f64);
+impl PartialEq for F64Bits {
+    fn eq(&self, o: &Self) -> bool {
+        self.0.to_bits() == o.0.to_bits()
+    }
+}
+
 #[derive(Debug, Clone, PartialEq, Serialize, Deserialize)]
 pub struct UnitStruct;
 
@@ -330,6 +348,9 @@ pub fn run_c17(sink: &mut dyn Sink) {
     all_wrappers(sink, "i32", vec![0i32, -65537, i32::MIN, i32::MAX]);
     all_wrappers(sink, "i64", vec![0i64, -(1 << 32) - 1, i64::MIN, i64::MAX]);
     all_wrappers(sink, "f32", vec![0.0f32, -0.0, 1.5, f32::MAX, f32::MIN_POSITIVE, f32::INFINITY]);
+    // bit patterns: subnormals, quiet and signalling NaNs with payloads, negative NaN
+    all_wrappers(sink, "f32-bits", [0x0000_0001u32, 0x8000_0000, 0x7fc0_0000, 0x7f80_0001, 0xffc0_0001, 0x7fff_ffff, 0x3dcc_cccd].iter().map(|b| F32Bits(f32::from_bits(*b))).collect());
+    all_wrappers(sink, "f64-bits", [0x0000_0000_0000_0001u64, 0x8000_0000_0000_0000, 0x7ff8_0000_0000_0000, 0x7ff0_0000_0000_0001, 0xfff8_0000_0000_0001, 0x7fff_ffff_ffff_ffff, 0x3fb9_9999_9999_999a].iter().map(|b| F64Bits(f64::from_bits(*b))).collect());
     all_wrappers(sink, "f64", vec![0.0f64, -0.0, 1.5, f64::MAX, f64::MIN_POSITIVE, f64::NEG_INFINITY]);
     all_wrappers(sink, "char", vec!['\0', 'a', '\u{ff}', '\u{10ffff}']);
     all_wrappers(sink, "String", vec![String::new(), "a".to_string(), "\u{e9}\u{1f600}".to_string(), "x".repeat(24)]);
